@@ -1611,7 +1611,12 @@ sub_mul_int(Type& to, const Type x, const Type y, Rounding_Dir dir) {
     }
     return assign_nan<To_Policy>(to, V_UNKNOWN_NEG_OVERFLOW);
   case 1:
-    if (to <= 0) {
+    // Here x * y > max.  If to == 0 the result -(x * y) is below min
+    // only when -max <= min, i.e., when the finite range is symmetric.
+    if (to < 0
+        || (to == 0
+            && (Extended_Int<To_Policy, Type>::min
+                + Extended_Int<To_Policy, Type>::max >= 0))) {
       return set_neg_overflow_int<To_Policy>(to, dir);
     }
     return assign_nan<To_Policy>(to, V_UNKNOWN_POS_OVERFLOW);
